@@ -82,27 +82,34 @@ class Rig:
     def quiesce(self, timeout=10.0):
         return pipemod.quiesce(self.pipe, timeout, extra_activity=lambda: len(self.log))
 
-    def wait(self, predicate, timeout=5.0):
-        """Wait until predicate() or the rig is idle (predicted effect seen, or nothing moves any more).
+    def wait(self, predicate, timeout=5.0, min_idle=0.4):
+        """Wait until predicate() holds; give up early only when the rig has been idle for `min_idle` seconds without it.
 
-        Idleness is only believed after it persisted over several samples spanning >= 60 ms: a thread that was just
-        woken (Event.set) still looks parked until the OS schedules it.
-        """
+        A thread that was just woken (Event.set) still looks parked until the OS schedules it, and on a loaded machine
+        that can take a while: idleness is only believed after it persisted, over many samples, for `min_idle` seconds.
+        On a correct tree the predicate normally becomes true within milliseconds, so the patience costs nothing."""
         deadline = time.monotonic() + timeout
+        idle_since = None
         while time.monotonic() < deadline:
             if predicate():
                 return True
             if self.pipe.inbox_empty() and stuck.wait_idle(self.activity, timeout=0.02, settle=0.002, samples=3):
-                if predicate():
-                    return True
-                if self.pipe.inbox_empty() and stuck.wait_idle(self.activity, timeout=0.3, settle=0.012, samples=6):
+                now = time.monotonic()
+                if idle_since is None:
+                    idle_since = now
+                elif now - idle_since >= min_idle:
                     return predicate()
-            time.sleep(0.0005)
+            else:
+                idle_since = None
+            time.sleep(0.001)
         return predicate()
 
     def confirm_absent(self, predicate, grace=0.25):
-        """An expected effect is missing: give the system a generous grace period before calling it absent."""
-        end = time.monotonic() + grace
+        """An expected effect is missing: give the system a generous grace period before calling it absent.
+
+        Pure wall-clock polling (no idle shortcut): on a loaded machine a woken thread may not be scheduled for a while.
+        Only paid on suspicious cases, so the minimum is deliberately long."""
+        end = time.monotonic() + max(grace, 2.0)
         while time.monotonic() < end:
             if predicate():
                 return False
@@ -114,6 +121,8 @@ class Rig:
         self.pipe.connect()
         self.pipe.feed(wire.hsms_control(wire.SELECT_REQ, system))
         ok = self.wait(lambda: any(f.stype == wire.SELECT_RSP and f.system == system for f in self.pipe.frames()), timeout)
+        if not ok:
+            ok = not self.confirm_absent(lambda: any(f.stype == wire.SELECT_RSP and f.system == system for f in self.pipe.frames()))
         return ok
 
     def answer_own_select(self, timeout=5.0):
